@@ -22,7 +22,9 @@ HEAP_TYPES = {"Vec", "String", "Box", "Rc", "Arc", "Cow", "BTreeMap", "BTreeSet"
 HEAP_MACROS = {"vec", "format"}
 STD_MACROS = {"println", "eprintln", "print", "eprint", "dbg"}
 HEAP_METHODS = {"to_vec", "to_string", "to_owned", "into_boxed_slice", "into_boxed_str", "into_owned",
-                "to_uppercase", "to_lowercase"}
+                "to_uppercase", "to_lowercase",
+                # slice methods that live in `alloc` (the stable sorts need a scratch buffer), not in `core`
+                "sort", "sort_by", "sort_by_key", "sort_by_cached_key", "repeat", "concat"}
 ITEM_KW = {"fn", "impl", "struct", "enum", "trait", "type", "use", "let", "const", "static", "mod", "unsafe", "extern",
            "pub", "union", "macro_rules", "async", "default"}
 SEMI_KW = {"use", "let", "const", "static", "type", "return", "extern"}
